@@ -426,6 +426,11 @@ def _run_path(interp, reg, c, func, rep):
     st = interp.st
     args, ghosts = make_inputs(interp, c)
     reg.ghost_env = dict(ghosts)
+    # ghost (monitor) variables declared in `modifies`: the function starts in an arbitrary monitor state
+    from .api import Dependent as _Dependent
+    for key, ty in (c.modifies.items() if isinstance(c.modifies, dict) else ()):
+        if key.startswith('ghost:') and isinstance(ty, Ty) and not isinstance(ty, _Dependent):
+            st.ghost[key[6:]] = ty.make(interp, key)
     if c.setup is not None:
         extra = c.setup(interp, args, ghosts)
         if extra:
@@ -475,6 +480,7 @@ def _run_path(interp, reg, c, func, rep):
     pos = [args[n] for n in names[:code.co_argcount]]
     kw = {n: args[n] for n in names[code.co_argcount:] if n in args}
     outcome = None
+    ghost0 = dict(st.ghost)
     info = frontend.funcinfo_of(func)
     mlists_before = _mutable_lists_of(args)
     yseq = None
@@ -550,6 +556,20 @@ def _run_path(interp, reg, c, func, rep):
                                                                      + list(allowed or ()))),
                           isinstance(exc, tuple(allowed)) if allowed else False,
                           {'kind': 'raises-only', 'exception': repr(exc)})
+    # frame of the ghost (monitor) state: variables not declared in `modifies` are unchanged
+    if isinstance(c.modifies, dict):
+        for key in sorted(k for k in set(ghost0) | set(st.ghost) if isinstance(k, str)):
+            if ('ghost:' + key) in c.modifies:
+                continue
+            v0, v1 = ghost0.get(key, _MISSING), st.ghost.get(key, _MISSING)
+            if v0 is v1:
+                continue
+            if isinstance(v0, (int, bool, str, SInt, SBool)) and isinstance(v1, (int, bool, str, SInt, SBool)) \
+                    or (hasattr(v0, 't') and hasattr(v1, 't')):
+                same = interp.eq(v0, v1)
+            else:
+                same = False
+            st.oblige('%s : frame[ghost %s unchanged]' % (fname, key), same, {'kind': 'frame'})
     # vacuity guard: the path must be satisfiable, otherwise its obligations say nothing
     if st.check() == z3.unsat:
         st.obligations[:] = [o for o in st.obligations if o[3].get('kind') in ('callee-pre', 'loop-entry')]
@@ -557,6 +577,9 @@ def _run_path(interp, reg, c, func, rep):
     if c.raises_only is not None and outcome[0] == 'return':
         st.oblige('%s : raises_only(%s)' % (fname, ', '.join(_exc_name(e) for e in list(c.raises) + list(c.may_raise)
                                                             + list(c.raises_only))), True, {'kind': 'raises-only'})
+
+
+_MISSING = object()
 
 
 def _mutable_lists_of(args):
